@@ -169,6 +169,27 @@ fn localized_sweep(rep: &Report, prop: &str, seed: u64) -> u64 {
     spans.len() as u64 * 18
 }
 
+/// A single sample differing from an otherwise flat image, at every position of 19 x 21 and
+/// 27 x 10 images, small and large differences: a decision taken for a row, a band or a plane from
+/// a scan that misses one position shows here.
+fn spike_sweep(rep: &Report, prop: &str) -> u64 {
+    let mut n = 0u64;
+    for &(w, h) in &[(19usize, 21usize), (27, 10), (10, 27)] {
+        let cases: Vec<usize> = (0..w * h).collect();
+        cases.par_iter().for_each(|&pos| {
+            for (base, odd) in [(96u8, 99u8), (96, 200), (200, 90), (0, 7), (255, 250)] {
+                let mut img = vec![base; w * h];
+                img[pos] = odd;
+                for s in [1u8, 5, 12] {
+                    check_image(rep, prop, w, h, s, &img, &format!("flat {base} except sample ({},{}) = {odd}", pos % w, pos / w), true);
+                }
+            }
+        });
+        n += (w * h * 15) as u64;
+    }
+    n
+}
+
 const GEOM_NAMES: [&str; 6] = ["noise", "block-checker", "ramp-up", "ramp-down", "extremes", "small-steps"];
 
 fn check_image(rep: &Report, prop: &str, w: usize, h: usize, s: u8, data: &[u8], label: &str, compare_model: bool) {
@@ -359,7 +380,7 @@ pub fn run_c09(tier: Tier) -> Report {
         rep.extra("self_related_images", json!(n));
     }
     {
-        let nl = localized_sweep(&rep, "C09", seed);
+        let nl = localized_sweep(&rep, "C09", seed) + spike_sweep(&rep, "C09");
         rep.add_transitions(nl);
         rep.add_states(nl);
         rep.extra("localised_detail_images", json!(nl));
@@ -415,7 +436,7 @@ pub fn run_c09(tier: Tier) -> Report {
     }
     rep.set_rule(&format!(
         "kernel: (A,B,C,D) patterns x strengths 1..12 placed in images that isolate one pass ({} units of 65536 patterns; quick = all 2^32 for one strength (5 + VERIF_SEED mod 12) in the vector slot of the horizontal pass, 32x32 (A,B) lattice x all (C,D) for every strength, pass and slot kind (packed vector lanes, scalar remainder, alone in an otherwise flat vector group); thorough = all 2^32 x 12 x both passes x vector and scalar slots, and all 2^32 x 12 alone in an otherwise flat vector group of the horizontal pass); \
-         geometry: all widths 1..={maxw} x heights 0..={maxh} x 12 strengths x 6 contents {:?}; flat images with detail confined to every span of columns / rows; the input slice at every byte offset 0..15 of its buffer; images in which every second 8-column group / 8-row band holds what the filter (either pass, both, or none) makes of its neighbour, for every strength; all sequences of three calls over 30 (shape, strength, content) letters on one thread (purity); non-trivial = image with at least one filterable edge",
+         geometry: all widths 1..={maxw} x heights 0..={maxh} x 12 strengths x 6 contents {:?}; flat images with detail confined to every span of columns / rows (43 x 21 and 21 x 43, so the scalar tails are spans of their own); flat images with one differing sample at every position; the input slice at every byte offset 0..15 of its buffer; images in which every second 8-column group / 8-row band holds what the filter (either pass, both, or none) makes of its neighbour, for every strength; all sequences of three calls over 30 (shape, strength, content) letters on one thread (purity); non-trivial = image with at least one filterable edge",
         units.len(), GEOM_NAMES
     ));
     rep.sample(json!({"kernel": {"A": 10, "B": 10, "C": 9, "D": 10, "strength": 5, "expected": annex_j(10, 10, 9, 10, 5)}}));
